@@ -371,7 +371,7 @@ def v1_case_st(draw):
 def v2_enum(max_nodes):
     index = 0
     for ast in c07.enumerate_trees(V2_ENUM_OPERANDS, 1, max_nodes):
-        for case in c07.expr_cases([ast], text_variants=[0, 1, 8, 21], list_variants=[0, 5]):
+        for case in c07.expr_cases([ast], text_variants=[0, 1, 8, 21], list_variants=[0, 5, 32]):
             index += 1
             yield {"kind": "v2", "ast": ast, "v": case["v"], "form": case["form"],
                    "how": "current" if index % 4 == 0 else ("config" if index % 9 == 0 else "explicit")}
